@@ -381,8 +381,8 @@ CONDITIONS = [
     Cond(name="requirements", fn="requirements",
          params=[("req1", "int"), ("opt1", "int"), ("cat1", "int"), ("req2", "int"), ("opt2", "int"), ("cat2", "int"), ("qe", "int")],
          pre=["0 <= req1 < 8", "0 <= opt1 < 8", "0 <= cat1 < 4", "0 <= req2 < 8", "0 <= opt2 < 8", "0 <= cat2 < 4", "0 <= qe <= 2"],
-         partitions={"quick": [{"qe": e, "req2": 5, "opt2": 2, "cat2": c} for e in range(3) for c in (0, 3)],
-                     "thorough": [{"qe": e, "cat2": c, "req2": r} for e in range(3) for c in range(4) for r in (0, 3, 5, 7)]},
+         partitions={"quick": [{"qe": e, "req2": 5, "opt2": 2, "cat2": 3 if r % 2 else 0, "req1": r, "cat1": (r + e) % 4} for e in range(3) for r in range(8)],
+                     "thorough": [{"qe": e, "cat2": c, "req2": 5, "opt2": 2, "req1": r, "cat1": k} for e in range(3) for c in (0, 3) for r in range(8) for k in range(4)]},
          timeout={"quick": 600, "thorough": 1200}, path_timeout=60,
          functions=["mdstore.MetadataStore.attribute_requirement", "mdstore.InMemoryMetaData.attribute_requirement", "mdstore.attribute_requirement",
                     "mdstore.MetadataStore.entity_categories/entity_attributes"],
